@@ -138,10 +138,10 @@ structure MF : Prop where
   outB : ∀ (s : Interp.IState) (d : Interp.Done) r out s', IInv s →
     (Interp.step s = .pure d ∨ ∃ op k resp, Interp.step s = .host op k ∧ d = k resp) → d = .halt r out s' →
     out.length ≤ s'.mem.buffer.length
-  /-- calldata / initcode is a slice of the memory -/
+  /-- calldata / initcode is a slice of the memory, hence a Rust `Bytes` -/
   inB : ∀ (s : Interp.IState) (d : Interp.Done) a s', IInv s →
     (Interp.step s = .pure d ∨ ∃ op k resp, Interp.step s = .host op k ∧ d = k resp) → d = .action a s' →
-    dataLen a ≤ s'.mem.buffer.length
+    dataLen a ≤ ISZ
   answerCodes : ∀ he (w w1 : World) op resp, answer he w op = .ok (resp, w1) → StoreEq w w1
   frameCodes : ∀ cfg (w w' : World) a mem fr, makeFrame journalOps cfg w a mem = .ok (fr, w') →
     StoreOk w → dataLen a ≤ ISZ → StoreEq w w'
@@ -376,7 +376,7 @@ theorem tot3_frameAction (mf : MF) {cfg : Cfg} (henv : Revm.Proofs.Interp.EnvOk 
     {rest : List JFrame} {a : Interp.Action} {s : Interp.IState} {w : World} (h : LI (top :: rest) w)
     (hs : IInv s) (hlc : s.mem.lastCheckpoint ≤ rest.length * FB) (hlink : Link s top.kind rest) (hrest : SOk rest)
     (hgas : imeas s + a.gasLimit + msum rest ≤ U64 - 2) (hr : Revm.Proofs.Interp.RetOk a (iclen s.mem))
-    (hd : dataLen a ≤ s.mem.buffer.length) (hlen : rest.length + 1 ≤ CALL_STACK_LIMIT + 1) (hcodes : StoreOk w) :
+    (hdl : dataLen a ≤ ISZ) (hlen : rest.length + 1 ≤ CALL_STACK_LIMIT + 1) (hcodes : StoreOk w) :
     Tot3 (frameAction journalOps cfg top rest a s w) NInv3 := by
   unfold frameAction
   have h' := h.updTop s
@@ -388,7 +388,6 @@ theorem tot3_frameAction (mf : MF) {cfg : Cfg} (henv : Revm.Proofs.Interp.EnvOk 
     unfold FB at hbuf
     generalize rest.length = n at hbuf hlen
     omega
-  have hdl : dataLen a ≤ ISZ := Nat.le_trans hd hs.memWF.2.2
   refine tot3_bind' (tot3_makeFrame h.ok a s.mem) (fun p heq hp => ?_)
   obtain ⟨fr, w1⟩ := p
   obtain ⟨fo, fa⟩ := hp
@@ -431,7 +430,7 @@ theorem tot3_afterStep (mf : MF) {cfg : Cfg} (henv : Revm.Proofs.Interp.EnvOk cf
     {rest : List JFrame} {d : Interp.Done} {w : World} (h : LI (top :: rest) w) (hsi : SI (top :: rest) w)
     (hd : SDone top.interp d) (h2 : StepOk2 top.interp d)
     (hout : ∀ r out s', d = .halt r out s' → out.length ≤ s'.mem.buffer.length)
-    (hin : ∀ a s', d = .action a s' → dataLen a ≤ s'.mem.buffer.length)
+    (hin : ∀ a s', d = .action a s' → dataLen a ≤ ISZ)
     (hlen : rest.length + 1 ≤ CALL_STACK_LIMIT + 1) :
     Tot3 (afterStep journalOps cfg top rest d w) NInv3 := by
   obtain ⟨ti, tlc, tlink, trest⟩ := hsi.sok
